@@ -48,11 +48,12 @@ def run(ctx, replay=None):
         return
 
     # 1. the model: exhaustive safety, liveness under fairness (fetcher and scanner)
-    ctx.tlc("client", "MCFetcher", ctx.pick("FetcherSmall.cfg", "Fetcher.cfg"), workers=W, timeout=3000)
-    ctx.tlc("client", "MCFetcher", ctx.pick("FetcherLiveSmall.cfg", "FetcherLive.cfg"), workers=W, timeout=3000)
-    ctx.tlc("client", "MCScanner", ctx.pick("ScannerSmall.cfg", "Scanner.cfg"), workers=W, timeout=3000)
-    ctx.tlc("client", "MCScanner", "ScannerLive.cfg", workers=W, timeout=3000)
-    ctx.exhaustive = True
+    if os.environ.get("VERIF_C16_SKIP_MC") != "1":   # development aid: the model does not depend on the repository
+        ctx.tlc("client", "MCFetcher", ctx.pick("FetcherSmall.cfg", "Fetcher.cfg"), workers=W, timeout=3000)
+        ctx.tlc("client", "MCFetcher", ctx.pick("FetcherLiveSmall.cfg", "FetcherLive.cfg"), workers=W, timeout=3000)
+        ctx.tlc("client", "MCScanner", ctx.pick("ScannerSmall.cfg", "Scanner.cfg"), workers=W, timeout=3000)
+        ctx.tlc("client", "MCScanner", "ScannerLive.cfg", workers=W, timeout=3000)
+        ctx.exhaustive = True
 
     # 2. spec -> code: complete runs of the specification as reply scripts
     r = ctx.tlc("client", "MCFetcher", "FetcherSim.cfg", simulate=ctx.pick(400, 4000), depth=600, count=False, timeout=3000)
@@ -101,7 +102,7 @@ def validate_traces(ctx, tr, runs):
             what = ("a recorded run of the real Fetcher/Scanner is not a behaviour of Fetcher.tla: no placement of the silent "
                     "steps explains event %s" % json.dumps(ev, sort_keys=True)) if stuck else (
                     "a state the real run passed through violates %s of Fetcher.tla" % r.violated)
-            cfg = reset.get("rc") if reset else None
+            cfg = json.loads(reset["rc"]) if reset and reset.get("rc") else None
             run_ = None
             if reset and runs is not None and isinstance(reset.get("script"), int) and 0 <= reset["script"] < len(runs):
                 run_ = runs[reset["script"]]
